@@ -130,14 +130,7 @@ func (in *Interp) callFunction(cc *callCtx, fn *ssa.Function, args []Value, bind
 		return true
 	}
 	if fn.Synthetic == "package initializer" {
-		if fn.Pkg != nil && !in.inited[fn.Pkg] && (fn.Pkg == in.p.pkg || initWhitelist[fn.Pkg.Pkg.Path()]) {
-			in.inited[fn.Pkg] = true
-			if cc.advance {
-				f.ip++
-			}
-			in.pushFrame(cc.th, fn, nil, nil, -1)
-			return true
-		}
+		// imported packages are initialised lazily, when one of their globals is first touched (globalObj)
 		if cc.advance {
 			f.ip++
 		}
